@@ -198,7 +198,7 @@ oracle = DESIGN.md Appendix B (transcribed from the rustdoc on the wire fields)"
     // ---- layout --------------------------------------------------------------------------------------
     let n_layout = ctx.tier.pick(100_000, 3_000_000);
     for i in 0..n_layout {
-        if i % 16 == 1 {
+        if i % 128 == 1 {
             crate::props::poison::run(i as u64);
         }
         let mut h = [0u16; 60];
@@ -401,10 +401,10 @@ oracle = DESIGN.md Appendix B (transcribed from the rustdoc on the wire fields)"
         use nexrad_decode::messages::decode_messages;
         let n = ctx.tier.pick(20_000, 150_000);
         for i in 0..n {
-        if i % 16 == 1 {
+        if i % 128 == 1 {
             crate::props::poison::run(i as u64);
         }
-            if i % 16 == 1 {
+            if i % 128 == 1 {
                 crate::props::poison::run(i as u64);
             }
             let mut h = enc::gen_rda_status_in_domain(&mut rng);
@@ -489,7 +489,7 @@ oracle = DESIGN.md Appendix B (transcribed from the rustdoc on the wire fields)"
     let n = ctx.tier.pick(150_000, 5_000_000);
     let mut previous_codes = base.alarm_codes;
     for i in 0..n {
-        if i % 16 == 1 {
+        if i % 128 == 1 {
             crate::props::poison::run(i as u64);
         }
         let mut m = base.clone();
